@@ -90,6 +90,13 @@ pub fn font_map(share_id: u32, src: u16) -> Vec<u8> {
     share_data(share_id, src, PDUTYPE2_FONTMAP, &w.0)
 }
 
+/// TS_FONT_LIST_PDU (a client-to-server PDU whose body has the layout of the font map) as a server would send it
+pub fn font_list_from_server(share_id: u32, src: u16) -> Vec<u8> {
+    let mut w = W::new();
+    w.u16le(0).u16le(0).u16le(3).u16le(0x32);
+    share_data(share_id, src, 0x27, &w.0)
+}
+
 pub fn set_error_info(share_id: u32, src: u16, code: u32) -> Vec<u8> {
     let mut w = W::new();
     w.u32le(code);
